@@ -1,0 +1,6 @@
+//go:build !verif
+
+package yqlib
+
+// verifPoint is a no-op unless built with the `verif` tag (see verif_hooks_on.go).
+func verifPoint(string) error { return nil }
